@@ -61,7 +61,7 @@ var initWhitelist = map[string]bool{
 	"sort": true, "slices": true, "errors": false, "encoding/base64": true,
 	"encoding/hex": true, "encoding/binary": true, "unicode/utf8": true,
 	"math/bits": true, "math": false, "path/filepath": true, "cmp": true,
-	"internal/itoa": true, "internal/stringslite": true, "io/fs": false,
+	"internal/itoa": true, "internal/stringslite": true, "io/fs": true, "internal/oserror": true,
 	"golang.org/x/crypto/chacha20poly1305": false, "golang.org/x/crypto/curve25519": true,
 }
 
@@ -295,6 +295,7 @@ func (i *interpreter) runPath(fn *ssa.Function, prefix []dec) {
 	x := e.x
 	e.resetPath(prefix)
 	i.restoreGlobals()
+	i.ov = nil
 	i.stack = i.stack[:0]
 	outcome := "ok"
 	detail := ""
